@@ -320,12 +320,10 @@ impl WmoWriter {
             return Ok(());
         }
 
-        // Determine material size based on version
-        let material_size = if target_version >= WmoVersion::Mop {
-            64
-        } else {
-            40
-        };
+        // A material record is 64 bytes in every version (36 bytes of fields and 28 of
+        // padding are written below, and the parser reads 64)
+        let _ = target_version;
+        let material_size = 64;
 
         let header = ChunkHeader {
             id: chunks::MOMT,
@@ -414,6 +412,10 @@ impl WmoWriter {
 
         header.write(writer)?;
 
+        // Offset of each group's name in the MOGN chunk (names are written in group order,
+        // each followed by its terminator)
+        let mut name_offset = 0u32;
+
         for group in groups {
             writer.write_u32_le(group.flags.bits())?;
 
@@ -426,8 +428,8 @@ impl WmoWriter {
             writer.write_f32_le(group.bounding_box.max.z)?;
 
             // Write name offset in MOGN chunk
-            // This is a simplification - in a real implementation, you'd need to calculate actual offsets
-            writer.write_u32_le(0)?; // Placeholder
+            writer.write_u32_le(name_offset)?;
+            name_offset += group.name.len() as u32 + 1;
         }
 
         Ok(())
